@@ -192,6 +192,9 @@ Lemma emb_perm_bij_2 : bij (3 ^ 2 + (4 ^ 2 - 3 ^ 2)) (emb_perm 2) (emb_inv 2).
 Proof. apply bijb_spec. vm_compute. reflexivity. Qed.
 Lemma emb_perm_bij_3 : bij (3 ^ 3 + (4 ^ 3 - 3 ^ 3)) (emb_perm 3) (emb_inv 3).
 Proof. apply bijb_spec. vm_compute. reflexivity. Qed.
+Lemma emb_perm_bij_upto3 : forall n, (1 <= n <= 3)%nat -> bij (3 ^ n + (4 ^ n - 3 ^ n)) (emb_perm n) (emb_inv n).
+Proof. intros n Hn. assert (n = 1 \/ n = 2 \/ n = 3)%nat as [->|[->| ->]] by lia;
+  [exact emb_perm_bij_1|exact emb_perm_bij_2|exact emb_perm_bij_3]. Qed.
 (* qubit basis states without the digit 3 are the qutrit basis states, in order: pi(a) = base-3 reading of a's base-4 digits *)
 Fixpoint base3 (n a : nat) : nat := match n with O => 0%nat | S k => (a mod 4 + 3 * base3 k (a / 4))%nat end.
 Lemma emb_perm_qutrit_states_upto3 : forall n, (1 <= n <= 3)%nat ->
